@@ -22,7 +22,7 @@
     ([C11_no_sink_first_bad_segment]).
     Partial: WHERE in the segment the reported error's span lies is decided by the correspondence run
     and the python segment oracle (the leaf errors' spans are C13's theorems). *)
-From Tephra Require Import MetricsSpec CLexer LexerFacts Run Peg RunCore RunRecover RunList RunListOk RunListSeg.
+From Tephra Require Import MetricsSpec CLexer LexerFacts Run Peg RunCore RunRecover RunList RunListOk RunListSeg RunMove RunErrLoc RunListLoc.
 
 Theorem C11_loop_exits :
   forall runf n hi ab dflt item probe sepp c vals lx st k,
@@ -206,3 +206,52 @@ Proof.
   apply sn_abort; reflexivity.
 Qed.
 Print Assumptions C11_seg_list_example.
+
+(** * Where the error of a bad segment lies: between the boundaries delimiting the segment, inclusive *)
+
+(** an item of the sub-free core none of whose leaves accepts a boundary token ([nob]: the property's
+    "items contain no separator or abort tokens"), run where the first boundary token ahead is [b]: whatever error
+    it returns - and the boundary error of up_to around it - carries only spans between the parse start of the
+    lexer it was given and the END of [b] *)
+Theorem C11_item_error_within_segment :
+  forall m, 1 <= tabw m -> forall t, wf_text t ->
+  forall B f a lx ys c st e st',
+  core0 a = true -> nob B a = true -> Inv m t lx ys ->
+  run (S f) (GUpTo a B) lx c st = (RErr e, st') ->
+  forall pre b rest, kept (c_filter lx) ys = pre ++ b :: rest -> noB B pre -> isB B b ->
+  ewithin (byte (c_ps lx)) (byte (e_end b)) e.
+Proof. exact upto_error_within. Qed.
+Print Assumptions C11_item_error_within_segment.
+
+(** the list's item wrapper on a bad segment [pre] ended by the separator / abort token [b], with a sink: the placeholder,
+    exactly one error appended to the sink log, all of its spans between the segment's parse start and the end of [b],
+    and the list stands in front of [b] without recover state *)
+Theorem C11_bad_segment_error_between_boundaries :
+  forall m, 1 <= tabw m -> forall t, wf_text t ->
+  forall a sep ab, in_core a = true -> core0 a = true -> nob (sep :: ab) a = true ->
+  forall f0, gdepth a < f0 -> forall c, has_sink c = true ->
+  forall dflt lx ys st pre b rest,
+  Inv m t lx ys -> c_rec lx = None -> bad a sep ab (kept (c_filter lx) ys) ->
+  kept (c_filter lx) ys = pre ++ b :: rest -> noB (sep :: ab) pre -> isB (sep :: ab) b ->
+  exists e lx' ys',
+    run (S (S (S f0))) (GStabilize (GRecoverWith dflt (list_rref sep ab) (GUpTo a (sep :: ab)))) lx c st
+      = (ROk dflt lx', logged st [e])
+    /\ Inv m t lx' ys' /\ c_filter lx' = c_filter lx /\ c_rec lx' = None /\ kept (c_filter lx) ys' = b :: rest
+    /\ ewithin (byte (c_ps lx)) (byte (e_end b)) e.
+Proof. exact bad_segment_error_within. Qed.
+Print Assumptions C11_bad_segment_error_between_boundaries.
+
+(** concrete ("a,b b,a;" with whitespace filtered): the one error of the bad middle segment lies between the
+    end of the first comma (byte 2) and the end of the second comma (byte 6), and [nob] holds of the item *)
+Example C11_error_position_example :
+  let t := [Ch 1 1 1; Ch 1 1 13; Ch 1 1 2; Ch 1 1 6; Ch 1 1 2; Ch 1 1 13; Ch 1 1 1; Ch 1 1 14] in
+  nob [KComma; KSemi] (GOne KA) = true /\
+  match c_with_filter (c_new Plain t) (Some (FDrop [KWs])) with
+  | Ok lx => match run 40 (GListDef (GOne KA) KComma [KSemi]) lx (ctx_new true) (mkstore [] []) with
+             | (ROk _ _, st) => match log st with [e] => ewithin 2 6 e | _ => False end
+             | _ => False
+             end
+  | _ => False
+  end.
+Proof. vm_compute. repeat split; repeat constructor. Qed.
+Print Assumptions C11_error_position_example.
